@@ -16,6 +16,8 @@ class C03(Prop):
         "Pfb.C03.prefixMatch_pos_head",
         "Pfb.C03.C03_new_block_after_prologue",
         "Pfb.C03.C03_new_block_before_first_import",
+        "Pfb.C03.C03_future_block_takes_import",
+        "Pfb.C03.C03_new_block_only_without_leading_future",
         "Pfb.C03.C03_add_total",
         "Pfb.C03.C03_remove_unique_as",
         "Pfb.C03.fromImportsShadow_unique",
